@@ -156,6 +156,10 @@ def spec_candidates(spec, levels, cn, pos):
     return sv, out
 
 
+class EarlierResultChanged(Exception):
+    pass
+
+
 def run_slice(path, fields, limit, serial, cn, pos, start=None, cache=None, cli_out=None):
     """cache: reuse one Mandoline object for several slices (the object keeps normal and position);
     cli_out: go through the console script (format "array", saved under this name) instead of the API"""
@@ -171,7 +175,17 @@ def run_slice(path, fields, limit, serial, cn, pos, start=None, cache=None, cli_
             m = Mandoline(path, fields=fields, limit_level=limit, serial=serial, verbose=0)
             if cache is not None:
                 cache[key] = m
-        return m.slice(normal=cn, pos=pos, fformat="return"), m
+        out = m.slice(normal=cn, pos=pos, fformat="return")
+        if cache is not None:
+            # what this object returned last time (kept by the caller, as in a sweep over positions) and a private copy of it
+            prev = cache.get(("last", key))
+            cache[("last", key)] = (out, {k: np.array(v, copy=True) for k, v in out.items() if isinstance(v, np.ndarray)})
+            if prev is not None:
+                ref, copy_ = prev
+                for k, v in copy_.items():
+                    if not (isinstance(ref.get(k), np.ndarray) and ref[k].shape == v.shape and oracle.same_bits(ref[k], v)):
+                        raise EarlierResultChanged(k)
+        return out, m
 
 
 def run_case(ctx, rep, spec, cn, posname, pos, fields, limit, serial, model, path=None, truth=None, start=None, batch=None,
@@ -200,6 +214,9 @@ def run_case(ctx, rep, spec, cn, posname, pos, fields, limit, serial, model, pat
         if pos is not None and (pos < g or pos > G) and e.code not in (0, None):
             return
         rep.fail(f"the mandoline console script exited ({e.code})", case); return
+    except EarlierResultChanged as e:
+        rep.fail(f"the array {e} returned by an EARLIER slice of the same object changed when the object was used again "
+                 "(results of a sweep over positions all end up holding the last plane)", case); return
     except ValueError as e:
         if pos is not None and (pos < g or pos > G):
             return        # refused, as required
@@ -209,8 +226,9 @@ def run_case(ctx, rep, spec, cn, posname, pos, fields, limit, serial, model, pat
     if pos is not None and (pos < g or pos > G):
         rep.fail("a position outside the domain was answered", case); return
     if pos is None:
-        if out["slice_pos"] != g + (G - g) / 2:
-            rep.fail(f"default position {out['slice_pos']} is not the domain centre {g + (G - g) / 2}", case)
+        Gh = max(G, float(f"{G:.12g}")) if spec.get("nominal_hi") else G        # the upper bound as the header states it
+        if out["slice_pos"] != g + (Gh - g) / 2:
+            rep.fail(f"default position {out['slice_pos']} is not the domain centre {g + (Gh - g) / 2}", case)
             return
         pos = out["slice_pos"]
     cx, cy = [i for i in range(3) if i != cn]
@@ -335,6 +353,12 @@ def run(ctx, rep, model=True):
                                    data=["smallint", "affine", "levelconst"][i % 3], B=2,
                                    nblk=[[2, 2, 1], [1, 2, 2], [2, 1, 2]][i % 3], origin=True, aniso=True, refine_p=0.5,
                                    layout="scatter", exact=(i % 4 != 3))     # every fourth mesh: cell sizes / origin that are no dyadic numbers
+        if i % 4 == 3:
+            spec["nominal_hi"] = True; rep.count("domain-bound-printed-as-nominal-decimal")
+            for d in range(3):
+                m = plotgen.ulp_below(spec["grid0"][d])
+                if m is not None:
+                    spec["geo_low"][d], spec["dx0"][d] = m; rep.count("box-bound-one-ulp-below-domain-bound")
         path = ctx.newdir("c07_")
         truth = plotgen.materialize(spec, path)
         if i % 2 == 1 and len(spec["fields"]) >= 2:
